@@ -37,6 +37,38 @@ class _ErrVec:
         return TOP
 
 
+class _Buf:
+    """An array allocated with np.zeros/np.empty, read at the generic qubit: a cell that in-place operations and
+    `out=` arguments can update."""
+
+    def __init__(self, value=0):
+        self.value = value
+
+    def __repr__(self):
+        return f'buf({self.value!r})'
+
+    def _v(self, o):
+        return o.value if isinstance(o, _Buf) else o
+
+    def __add__(self, o): return self.value + self._v(o)
+    def __radd__(self, o): return self._v(o) + self.value
+    def __sub__(self, o): return self.value - self._v(o)
+    def __rsub__(self, o): return self._v(o) - self.value
+    def __mul__(self, o): return self.value * self._v(o)
+    def __rmul__(self, o): return self._v(o) * self.value
+
+    def __iadd__(self, o):
+        self.value = self.value + self._v(o)
+        return self
+
+    def __imul__(self, o):
+        self.value = self.value * self._v(o)
+        return self
+
+    def pqv_compare(self, op, other, swapped):
+        return TOP
+
+
 class _H181(Hooks):
     def __init__(self, syms, nq):
         self.syms = syms
@@ -52,10 +84,21 @@ class _H181(Hooks):
             return self.syms
         n = np_name(func)
         if n:
+            if n in ('zeros', 'zeros_like', 'empty', 'empty_like'):
+                return _Buf(0)
+            kwargs = dict(kwargs)
+            out, where = kwargs.pop('out', None), kwargs.pop('where', None)
+            args = [a.value if isinstance(a, _Buf) else a for a in args]
             r = elementwise(n, args, kwargs)
-            if r is not NOT_HANDLED:
-                return r
-            return TOP
+            if r is NOT_HANDLED:
+                r = TOP
+            if out is not None or where is not None:
+                if not isinstance(out, _Buf):
+                    raise AnalysisError('R18.2', site_of(env.module, node), f'numpy.{n} with out={out!r}: target not tracked')
+                # elements not selected by `where` keep what the buffer held
+                out.value = r if where is None else Tagged('where', where, r, out.value)
+                return out
+            return r
         return NOT_HANDLED
 
 
@@ -83,7 +126,8 @@ def _r181_182(ctx: Ctx) -> None:
             outs = guard('R18.1', mi, fn)(lambda: it.explore(thunk))
             ctx.need(len(outs) == 1 and outs[0].kind == 'return', 'R18.1', site,
                      f'expected one straight-line path for (x,z)={(x, z)}, got {outs}')
-            results[(pauli, log_output)] = outs[0].value
+            v_ = outs[0].value
+            results[(pauli, log_output)] = v_.value if isinstance(v_, _Buf) else v_
 
     table = {}
     for pauli in PAULIS:
@@ -318,6 +362,27 @@ def _r183(ctx: Ctx) -> None:
             break
     ctx.ob('R18.3', site, 'get_next_error: Metropolis acceptance exp(min(0, logP(new)-logP(old)))',
            ok_b, detail_b, key='SplittingSimulation.get_next_error|accept', facts=fact_b)
+
+    # (d) what is returned is (error, log-likelihood OF THAT error) on every path: the caller records the number and
+    # may hand it back as the likelihood of the current error
+    ok_d, detail_d, pairs = True, '', set()
+    for o in rets:
+        v = o.value
+        if not (isinstance(v, tuple) and len(v) == 2):
+            raise AnalysisError('R18.3', site, f'get_next_error returns {v!r}, expected (error, log-likelihood)')
+        err, lp = v
+
+        def name(e):
+            return 'previous' if e is prev else ('new' if isinstance(e, Tagged) and e.tag == 'new_error' else None)
+        if name(err) is None or not isinstance(lp, _LogP) or name(lp.which) is None:
+            raise AnalysisError('R18.3', site, f'get_next_error returns ({err!r}, {lp!r}): not tracked')
+        pairs.add((name(err), name(lp.which)))
+        if name(err) != name(lp.which):
+            ok_d, detail_d = False, (f'a path returns the {name(err)} error together with the log-likelihood of the '
+                                     f'{name(lp.which)} error: the recorded likelihood (and any later acceptance ratio '
+                                     f'computed from it) does not belong to the current error')
+    ctx.ob('R18.3', site, 'get_next_error: the returned log-likelihood is that of the returned error', ok_d, detail_d,
+           key='SplittingSimulation.get_next_error|pair', facts=sorted(pairs))
 
     # (c) the proposal writes exactly the bit pair of the chosen Pauli, offered only if its probability != 0
     per_pauli = {}
